@@ -385,6 +385,18 @@ func frameworkStorm(ctx *core.Ctx, ci int, provName string, inflight int, entry 
 	ws := new(restful.WebService).Path("/s")
 	ws.Route(ws.GET("/get").To(func(req *restful.Request, resp *restful.Response) {
 		id := req.Request.Header.Get("X-Id")
+		if mode == "bodiless" && !strings.HasSuffix(id, "0") {
+			// responses without a body: nothing at all, a bare status, a zero-length Write
+			inHandler.wait()
+			switch id[len(id)-1] % 3 {
+			case 0:
+				resp.WriteHeader(http.StatusNoContent)
+			case 1:
+				resp.Write(nil)
+			}
+			atomic.StoreInt32(req.Request.Context().Value(hdKey{}).(*int32), 1)
+			return
+		}
 		resp.Write([]byte("payload-of-" + id + "-"))
 		inHandler.wait() // all requests are in flight (each holding its compressor) at once
 		resp.Write([]byte(strings.Repeat(id+";", 50)))
@@ -518,6 +530,8 @@ func frameworkStorm(ctx *core.Ctx, ci int, provName string, inflight int, entry 
 			want = "read-error"
 		case res.post:
 			want = fmt.Sprintf("echo-%d-%d", res.id, 200+i)
+		case mode == "bodiless" && !strings.HasSuffix(fmt.Sprint(res.id), "0"):
+			want = ""
 		case mode == "panic" && strings.HasSuffix(fmt.Sprint(res.id), "3"):
 			want = "payload-of-" + fmt.Sprint(res.id) + "-" + strings.Repeat(fmt.Sprint(res.id)+";", 50) + "recovered:storm-panic-" + fmt.Sprint(res.id)
 		default:
@@ -717,7 +731,7 @@ func secondClose(ctx *core.Ctx, ci int, provName, coding string) {
 func c13(ctx *core.Ctx) {
 	quietLogs()
 	atomic.StoreInt32(&c13Abort, 0)
-	ctx.Rule("providers {sync.Pool, bounded cache capacity 0/1/2/8, custom mutex free-list} behind an instrumenting provider (ledger + trip-wire + history). (A) direct storms: g in {2,4,8} goroutines acquire, use and close a writer, then release together through a spin barrier. (B) storms through Dispatch/ServeHTTP with in-flight in {1,2,capacity,capacity+1,16,64} requests all held inside the handler at once, modes {normal (release barrier inside the compressor flush), failing underlying writer, panicking handler with recovery, gzip request bodies via ReadEntity read in 7-byte slices, broken request bodies, handler hijacking the connection}; churn: goroutines acquire/use/release (directly and through Dispatch/ServeHTTP) back to back without barriers, so that acquires overlap releases. (C) second Close. Oracle: no object handed out while held, each acquired object released exactly once, no write through a released writer, every response/request body decodes to its own payload, nobody parked forever in Release/Close (goroutine state), per-object acquire/release history linearizable against a mutex (porcupine). Race detector on. Non-trivial = a storm with >= 2 holders; distinct by (kind, provider, holders, entry, mode, coding).")
+	ctx.Rule("providers {sync.Pool, bounded cache capacity 0/1/2/8, custom mutex free-list} behind an instrumenting provider (ledger + trip-wire + history). (A) direct storms: g in {2,4,8} goroutines acquire, use and close a writer, then release together through a spin barrier. (B) storms through Dispatch/ServeHTTP with in-flight in {1,2,capacity,capacity+1,16,64} requests all held inside the handler at once, modes {normal (release barrier inside the compressor flush), failing underlying writer, panicking handler with recovery, gzip request bodies via ReadEntity read in 7-byte slices, broken request bodies, handler hijacking the connection, handlers that write no body (nothing, bare 204, zero-length Write)}; churn: goroutines acquire/use/release (directly and through Dispatch/ServeHTTP) back to back without barriers, so that acquires overlap releases. (C) second Close. Oracle: no object handed out while held, each acquired object released exactly once, no write through a released writer, every response/request body decodes to its own payload, nobody parked forever in Release/Close (goroutine state), per-object acquire/release history linearizable against a mutex (porcupine). Race detector on. Non-trivial = a storm with >= 2 holders; distinct by (kind, provider, holders, entry, mode, coding).")
 	ctx.Assume("the ledger adds after the inner acquire and removes before the inner release: it cannot false-alarm on provider-internal ordering")
 	defer func() {
 		// after an abort goroutines of the unfinished storm may still be serving: the package-wide provider is left alone
@@ -765,7 +779,7 @@ func c13(ctx *core.Ctx) {
 			}
 		}
 	}
-	modes := []string{"normal", "failing-writer", "panic", "request-bodies", "broken-bodies", "hijack"}
+	modes := []string{"normal", "failing-writer", "panic", "request-bodies", "broken-bodies", "hijack", "bodiless"}
 	reps := ctx.N(1, 12)
 	for rep := 0; rep < reps; rep++ {
 		for _, prov := range c13Providers {
